@@ -358,7 +358,7 @@ func (e *c36Env) rawRoundTrip(build, fp string, names []string, v c36Variant, ke
 		if err == errC36Timeout {
 			return "", "", err
 		}
-		return "", "build rejected: " + c36Clip(se), nil
+		return "", "build rejected: " + se, nil
 	}
 	if os.Getenv("C36_GENONLY") != "" { // development aid: only check that the build scripts are accepted
 		return "", "", nil
@@ -465,7 +465,11 @@ func TestVerif_C36(t *testing.T) {
 		}
 		if skipped != "" {
 			rec.Case(desc, false, "build_rejected")
-			fmt.Printf("C36-BUILD-REJECTED: %s\n", strings.ReplaceAll(c36Clip(skipped), "\n", " | "))
+			tail := skipped
+			if len(tail) > 300 {
+				tail = tail[len(tail)-300:]
+			}
+			fmt.Printf("C36-BUILD-REJECTED: …%s\n", strings.ReplaceAll(tail, "\n", " | "))
 			if os.Getenv("C36_STRICT_BUILD") != "" {
 				rt.Fatalf("build rejected: %s\n%s", skipped, build)
 			}
